@@ -83,8 +83,8 @@ MANIFEST = dict(
          "Lean-defined oracle (closed form + brace scan) plus an independent RTF reader (pages, geometry).",
     note="A listed input is one NAME (never a pattern): inputs, directories and output are also generated under names "
          "with glob metacharacters, blanks, non-ASCII, leading . - ~ etc. next to decoy files whose pages must not "
-         "appear. A missing input given as pathlib.Path (outside the annotated list[str]) raises TypeError from the "
-         "message join — observed and reported, not judged. "
+         "appear. A missing input given as pathlib.Path raised TypeError from the "
+         "message join until rtflite 88a9e50 (D44); missing inputs are now given as str and as Path. "
          "Models the REPAIRED helper (fixes/assemble-body-start.patch): on the unrepaired tree inputs whose text "
          "contains 'fcharset' and coloured figure documents violate the property (D24). The read-back clause "
          "(pages = concatenation) is proved at line level (C17_lines/C17_block) and checked on the implementation "
@@ -590,7 +590,7 @@ def gen_names(rng, docs_in, docs_decoy):
     for x in inputs:
         x["form"] = rng.choices(["abs", "rel", "dot", "dotdot"], (40, 30, 15, 15))[0]
         # annotated type is list[str]; a missing input given as Path raises TypeError in the message join (reported)
-        x["path"] = (not any_missing) and rng.random() < 0.25
+        x["path"] = rng.random() < 0.25          # (missing inputs too: repaired in rtflite 88a9e50, D44)
     out = dict(rel=out_rel, form=rng.choices(["abs", "rel", "dot", "dotdot"], (40, 30, 15, 15))[0],
                path=rng.random() < 0.25, preexist=rng.random() < 0.3)
     return dict(level="names", scenario=scenario, dirs=[d for d in dirs if d],
@@ -829,9 +829,10 @@ def run_names(res, tier, pool):
     probe = obs[len(cases)]
     obs = obs[:len(cases)]
     if probe["exc"] and probe["exc"]["kind"] != "FileNotFoundError":
-        res.count("observed:missing-input-given-as-pathlib.Path-raises-" + probe["exc"]["kind"])
-        res.notes.append("a missing input given as pathlib.Path (outside the annotated list[str]) raises "
-                         f"{probe['exc']['kind']}: {probe['exc']['msg'][:80]} — nothing is written; not judged")
+        # (a TypeError until rtflite 88a9e50, D44; the generated missing scenarios give Path arguments too and are
+        # judged — this probe only annotates)
+        res.notes.append("assemble_rtf([Path('nope.rtf')], …) raises "
+                         f"{probe['exc']['kind']}: {probe['exc']['msg'][:80]}")
     reqs, spans = [], []
     for c, o in zip(cases, obs):
         r = names_requests(c, o, lines)
